@@ -7,13 +7,17 @@ visibility are functions of `started`, for every operation, every fault predicat
 namespace RichModel.Live
 open RichModel RichModel.Screen
 
+/-- Is `sys.stdout` / `sys.stderr` redirected while the display runs?  (Only on a terminal.) -/
+def Cfg.rOut (cfg : Cfg) : Bool := cfg.terminal && cfg.redirectStdout
+def Cfg.rErr (cfg : Cfg) : Bool := cfg.terminal && cfg.redirectStderr
+
 /-- The control fields the cleanup guarantee is about. -/
 structure Bal (cfg : Cfg) (st : St) : Prop where
   hooks : st.hooks = if st.started then 1 else 0
-  so : st.stdoutDepth = if st.started && cfg.redirectStdout then 1 else 0
-  se : st.stderrDepth = if st.started && cfg.redirectStderr then 1 else 0
-  rso : st.restoreStdout = if st.started && cfg.redirectStdout then some 0 else none
-  rse : st.restoreStderr = if st.started && cfg.redirectStderr then some 0 else none
+  so : st.stdoutDepth = if st.started && cfg.rOut then 1 else 0
+  se : st.stderrDepth = if st.started && cfg.rErr then 1 else 0
+  rso : st.restoreStdout = if st.started && cfg.rOut then some 0 else none
+  rse : st.restoreStderr = if st.started && cfg.rErr then some 0 else none
 
 /-- Two states with the same control fields. -/
 def CtlEq (a b : St) : Prop :=
@@ -82,7 +86,7 @@ theorem quiet_positionCursor (sh : Option (Nat × Nat)) : Quiet (positionCursor 
     · subst h; simp
     · exact quiet_eraseUp _ op h
 
-theorem quiet_restoreCursor (sh : Option (Nat × Nat)) : Quiet (restoreCursor sh) := by
+theorem quiet_restoreCursor (fix : Bool) (sh : Option (Nat × Nat)) : Quiet (restoreCursor fix sh) := by
   cases sh with
   | none => exact Quiet.nil
   | some wh =>
@@ -138,84 +142,214 @@ theorem hooked_ctl (cfg : Cfg) (fails : Nat → Bool) (st : St) (U : List Line) 
     · exact ⟨⟨rfl, rfl, rfl, rfl, rfl, rfl⟩, Quiet.nil⟩
     · exact ⟨⟨rfl, rfl, rfl, rfl, rfl, rfl⟩, (Quiet.append (Quiet.append (quiet_positionCursor _) (quiet_emitLines _)) (quiet_emitFrame _))⟩
 
+theorem hookedFile_ctl (cfg : Cfg) (fails : Nat → Bool) (st : St) (U : List Line) :
+    CtlEq (hookedFile cfg fails st U).st st ∧ Quiet (hookedFile cfg fails st U).out := by
+  unfold hookedFile
+  split
+  · exact ⟨⟨rfl, rfl, rfl, rfl, rfl, rfl⟩, Quiet.nil⟩
+  · exact ⟨⟨rfl, rfl, rfl, rfl, rfl, rfl⟩, Quiet.append (quiet_emitLines _) (quiet_emitFrame _)⟩
+
 theorem doPrint_ctl (cfg : Cfg) (fails : Nat → Bool) (st : St) (U : List Line) :
     CtlEq (doPrint cfg fails st U).st st ∧ Quiet (doPrint cfg fails st U).out := by
   unfold doPrint
   split
-  · exact hooked_ctl cfg fails st U
+  · split
+    · exact hooked_ctl cfg fails st U
+    · split
+      · exact hookedFile_ctl cfg fails st U
+      · exact ⟨CtlEq.rfl' _, quiet_emitLines _⟩
   · exact ⟨CtlEq.rfl' _, quiet_emitLines _⟩
 
 theorem doRefresh_ctl (cfg : Cfg) (fails : Nat → Bool) (st : St) :
     CtlEq (doRefresh cfg fails st).st st ∧ Quiet (doRefresh cfg fails st).out := by
+  have other : CtlEq ((if cfg.ansi then (if st.hooks > 0 then hooked cfg fails st [] else { st := st })
+      else if !st.started && !cfg.transient then doPrint cfg fails st [] else { st := st }) : Res).st st ∧
+      Quiet ((if cfg.ansi then (if st.hooks > 0 then hooked cfg fails st [] else { st := st })
+      else if !st.started && !cfg.transient then doPrint cfg fails st [] else { st := st }) : Res).out := by
+    split
+    · split
+      · exact hooked_ctl cfg fails st []
+      · exact ⟨CtlEq.rfl' _, Quiet.nil⟩
+    · split
+      · exact doPrint_ctl cfg fails st []
+      · exact ⟨CtlEq.rfl' _, Quiet.nil⟩
   cases hk : cfg.kind <;> simp only [doRefresh, hk]
+  · exact other
   · split
-    · exact hooked_ctl cfg fails st []
     · exact ⟨CtlEq.rfl' _, Quiet.nil⟩
-  · generalize columnCalls fails st.calls st.tasks = cc
-    obtain ⟨c, ok⟩ := cc
-    cases ok
-    · exact ⟨⟨rfl, rfl, rfl, rfl, rfl, rfl⟩, Quiet.nil⟩
-    · simp only [Bool.not_true, Bool.false_eq_true, if_false]
-      split
-      · have := hooked_ctl cfg fails { st with calls := c, renderable := tasksTable st.tasks } []
-        exact ⟨this.1.trans ⟨rfl, rfl, rfl, rfl, rfl, rfl⟩, this.2⟩
+    · generalize columnCalls fails st.calls st.tasks = cc
+      obtain ⟨c, ok⟩ := cc
+      cases ok
       · exact ⟨⟨rfl, rfl, rfl, rfl, rfl, rfl⟩, Quiet.nil⟩
-  · split
-    · exact hooked_ctl cfg fails st []
-    · exact ⟨CtlEq.rfl' _, Quiet.nil⟩
+      · simp only [Bool.not_true, Bool.false_eq_true, if_false]
+        split
+        · have := hooked_ctl cfg fails { st with calls := c, renderable := tasksTable cfg.cw st.tasks } []
+          exact ⟨this.1.trans ⟨rfl, rfl, rfl, rfl, rfl, rfl⟩, this.2⟩
+        · exact ⟨⟨rfl, rfl, rfl, rfl, rfl, rfl⟩, Quiet.nil⟩
+  · exact other
 
 /-- The `finally:` of `stop` on a state whose io fields are those of a started display. -/
 theorem cleanup_bal {cfg : Cfg} {st : St} (h : Bal cfg { st with started := true }) (hs : st.started = false) :
     Bal cfg (cleanup st) ∧ (cleanup st).started = false := by
   obtain ⟨h1, h2, h3, h4, h5⟩ := h
   simp only [Bool.true_and] at h1 h2 h3 h4 h5
-  obtain ⟨started, shape, rend, ov, ov0, hooks, so, se, rso, rse, tasks, ti, calls⟩ := st
+  obtain ⟨started, shape, rend, ov, ov0, hooks, so, se, rso, rse, bo, be, tasks, ti, calls, wd⟩ := st
   simp only at h1 h2 h3 h4 h5 hs
   subst hs
-  cases hro : cfg.redirectStdout <;> cases hre : cfg.redirectStderr <;>
+  cases hro : cfg.rOut <;> cases hre : cfg.rErr <;>
     simp [hro, hre] at h2 h3 h4 h5 <;> subst h1 h2 h3 h4 h5 <;>
     exact ⟨⟨by simp [cleanup, disableRedirect], by simp [cleanup, disableRedirect, hro],
       by simp [cleanup, disableRedirect, hre], by simp [cleanup, disableRedirect, hro],
       by simp [cleanup, disableRedirect, hre]⟩, by simp [cleanup, disableRedirect]⟩
 
-/-- `stop`: afterwards the display is not started and balanced, whatever failed; the cursor is shown
-if it was started. -/
+theorem setBuf_ctl (st : St) (err : Bool) (b : Line) : CtlEq (setBuf st err b) st := by
+  unfold setBuf; split <;> exact ⟨rfl, rfl, rfl, rfl, rfl, rfl⟩
+
+theorem flushLive_ctl (cfg : Cfg) (fails : Nat → Bool) (st : St) (err : Bool) :
+    CtlEq (flushLive cfg fails st err).st st ∧ Quiet (flushLive cfg fails st err).out := by
+  unfold flushLive
+  by_cases hc : (proxied st err && !(getBuf st err).isEmpty) = true
+  · simp only [hc, if_true]
+    have hp := doPrint_ctl cfg fails st [getBuf st err]
+    generalize doPrint cfg fails st [getBuf st err] = r at hp
+    cases hre : r.err with
+    | some e => exact hp
+    | none => exact ⟨(setBuf_ctl _ _ _).trans hp.1, hp.2⟩
+  · simp only [hc]
+    exact ⟨CtlEq.rfl' _, Quiet.nil⟩
+
+theorem flushDead_ctl (cfg : Cfg) (fails : Nat → Bool) (st : St) (err : Bool) :
+    CtlEq (flushDead cfg fails st err).st st ∧ Quiet (flushDead cfg fails st err).out := by
+  unfold flushDead
+  have hp := doPrint_ctl cfg fails (setBuf st err []) [getBuf st err]
+  by_cases hc : ((if err = true then st.restoreStderr.isSome else st.restoreStdout.isSome) && !(getBuf st err).isEmpty) = true
+  · simp only [hc, if_true]
+    exact ⟨hp.1.trans (setBuf_ctl _ _ _), hp.2⟩
+  · simp only [hc]
+    exact ⟨CtlEq.rfl' _, Quiet.nil⟩
+
+theorem dropFlush_ctl (cfg : Cfg) (fails : Nat → Bool) (st : St) (alive : Option Bool) :
+    CtlEq (dropFlush cfg fails st alive).st st ∧ Quiet (dropFlush cfg fails st alive).out := by
+  unfold dropFlush
+  have h1 : CtlEq (if alive == some false then ({ st := st } : Res) else flushDead cfg fails st false).st st ∧
+      Quiet (if alive == some false then ({ st := st } : Res) else flushDead cfg fails st false).out := by
+    split
+    · exact ⟨CtlEq.rfl' _, Quiet.nil⟩
+    · exact flushDead_ctl cfg fails st false
+  generalize (if alive == some false then ({ st := st } : Res) else flushDead cfg fails st false) = r1 at h1
+  have h2 : CtlEq (if alive == some true then ({ st := r1.st } : Res) else flushDead cfg fails r1.st true).st r1.st ∧
+      Quiet (if alive == some true then ({ st := r1.st } : Res) else flushDead cfg fails r1.st true).out := by
+    split
+    · exact ⟨CtlEq.rfl' _, Quiet.nil⟩
+    · exact flushDead_ctl cfg fails r1.st true
+  exact ⟨h2.1.trans h1.1, Quiet.append h1.2 h2.2⟩
+
+theorem lateFlush_ctl (cfg : Cfg) (fails : Nat → Bool) (st : St) (alive : Option Bool) :
+    CtlEq (lateFlush cfg fails st alive).st st ∧ Quiet (lateFlush cfg fails st alive).out := by
+  cases alive with
+  | none => exact ⟨CtlEq.rfl' _, Quiet.nil⟩
+  | some e =>
+    simp only [lateFlush]
+    split
+    · exact ⟨CtlEq.rfl' _, Quiet.nil⟩
+    · have hp := doPrint_ctl cfg fails (setBuf st e []) [getBuf st e]
+      exact ⟨hp.1.trans (setBuf_ctl _ _ _), hp.2⟩
+
+/-- The cursor visibility a display in state `started` is to have: hidden exactly while it runs on a
+terminal that understands the codes. -/
+def vis (cfg : Cfg) (started : Bool) : Bool := !(started && cfg.ansi)
+
+theorem lastVis_showOp (cfg : Cfg) (v : Bool) : lastVis v (showOp cfg) = (if cfg.ansi then true else v) := by
+  unfold showOp; split <;> rfl
+
+theorem lastVis_hideOp (cfg : Cfg) (v : Bool) : lastVis v (hideOp cfg) = (if cfg.ansi then false else v) := by
+  unfold hideOp; split <;> rfl
+
+theorem lastVis_finOut (cfg : Cfg) {o : List TermOp} (ho : Quiet o) (v : Bool) :
+    lastVis v (finOut cfg o) = (if cfg.ansi then true else v) := by
+  unfold finOut
+  cases cfg.kind
+  · rw [lastVis_append, lastVis_quiet ho, lastVis_showOp]
+  · rw [lastVis_append, lastVis_showOp, lastVis_quiet ho]
+  · rw [lastVis_append, lastVis_quiet ho, lastVis_showOp]
+
 theorem stopSt_ctl (cfg : Cfg) (st : St) : CtlEq (stopSt cfg st) { st with started := false } := by
   unfold stopSt; cases cfg.kind <;> exact ⟨rfl, rfl, rfl, rfl, rfl, rfl⟩
 
+/-- The tail of `stop` (line feed, `finally:` block, transient erase) after anything that kept the control
+fields of the stopping display and wrote no show / hide. -/
+theorem stopTail_ctl (cfg : Cfg) (fails : Nat → Bool) (st : St) (h : Bal cfg st) (hst : st.started = true)
+    (r : Res) (hc : CtlEq r.st { st with started := false }) (hq : Quiet r.out) (v : Bool) (alive : Option Bool := none) :
+    Bal cfg (stopTail cfg fails r alive).st ∧ (stopTail cfg fails r alive).st.started = false ∧
+      lastVis v (stopTail cfg fails r alive).out = (if cfg.ansi then true else v) := by
+  have hd := dropFlush_ctl cfg fails r.st alive
+  generalize hdd : dropFlush cfg fails r.st alive = d at hd
+  have key : Bal cfg (cleanup d.st) ∧ (cleanup d.st).started = false := by
+    obtain ⟨c1, c2, c3, c4, c5, c6⟩ := hd.1.trans hc
+    refine cleanup_bal ?_ c1
+    exact Bal.of_ctlEq h ⟨hst.symm, c2, c3, c4, c5, c6⟩
+  have key2 : Bal cfg (resetSt cfg (cleanup d.st)) ∧ (resetSt cfg (cleanup d.st)).started = false := by
+    unfold resetSt; split
+    · exact ⟨Bal.of_ctlEq key.1 ⟨rfl, rfl, rfl, rfl, rfl, rfl⟩, key.2⟩
+    · exact key
+  simp only [stopTail, hdd]
+  cases hre : r.err with
+  | some e =>
+    have hl := lateFlush_ctl cfg fails (cleanup d.st) alive
+    refine ⟨Bal.of_ctlEq key.1 hl.1, by rw [hl.1.1]; exact key.2, ?_⟩
+    show lastVis v (r.out ++ finOut cfg d.out ++ (lateFlush cfg fails (cleanup d.st) alive).out) = _
+    rw [lastVis_append, lastVis_append, lastVis_quiet hl.2, lastVis_finOut cfg hd.2, lastVis_quiet hq]
+  | none =>
+    refine ⟨key2.1, key2.2, ?_⟩
+    show lastVis v (r.out ++ (if cfg.terminal then [TermOp.lf] else []) ++ finOut cfg d.out ++ _) = _
+    have q1 : Quiet (r.out ++ (if cfg.terminal then [TermOp.lf] else [])) := by
+      refine Quiet.append hq ?_
+      split
+      · intro op hop; simp at hop; subst hop; simp
+      · exact Quiet.nil
+    have q3 : Quiet (if cfg.transient && cfg.ansi then restoreCursor cfg.blankFix (cleanup d.st).shape else []) := by
+      split
+      · exact quiet_restoreCursor _ _
+      · exact Quiet.nil
+    rw [lastVis_append, lastVis_append, lastVis_quiet q1, lastVis_finOut cfg hd.2, lastVis_quiet q3]
+
+/-- `stop`: afterwards the display is not started and balanced, whatever failed; the cursor is shown
+if it was started (on a terminal that hid it). -/
 theorem doStop_ctl (cfg : Cfg) (fails : Nat → Bool) (st : St) (h : Bal cfg st) (v : Bool) :
     Bal cfg (doStop cfg fails st).st ∧ (doStop cfg fails st).st.started = false ∧
-      lastVis v (doStop cfg fails st).out = (if st.started then true else v) := by
+      lastVis v (doStop cfg fails st).out = (if st.started && cfg.ansi then true else v) := by
   by_cases hst : st.started = true
-  · have e : doStop cfg fails st = stopTail cfg (doRefresh cfg fails (stopSt cfg st)) := by
-      simp [doStop, hst]
-    rw [e]
-    have hc := (doRefresh_ctl cfg fails (stopSt cfg st)).1.trans (stopSt_ctl cfg st)
-    have hq := (doRefresh_ctl cfg fails (stopSt cfg st)).2
-    generalize doRefresh cfg fails (stopSt cfg st) = r at hc hq ⊢
-    have key : Bal cfg (cleanup r.st) ∧ (cleanup r.st).started = false := by
-      obtain ⟨c1, c2, c3, c4, c5, c6⟩ := hc
-      refine cleanup_bal ?_ c1
-      exact Bal.of_ctlEq h ⟨hst.symm, c2, c3, c4, c5, c6⟩
-    have key2 : Bal cfg (resetSt cfg (cleanup r.st)) ∧ (resetSt cfg (cleanup r.st)).started = false := by
-      unfold resetSt; split
-      · exact ⟨Bal.of_ctlEq key.1 ⟨rfl, rfl, rfl, rfl, rfl, rfl⟩, key.2⟩
-      · exact key
-    simp only [hst, if_true, stopTail]
-    cases hre : r.err with
-    | some e =>
-      refine ⟨key.1, key.2, ?_⟩
-      show lastVis v (r.out ++ [TermOp.showCursor]) = true
-      rw [lastVis_append, lastVis_quiet hq]; rfl
-    | none =>
-      refine ⟨key2.1, key2.2, ?_⟩
-      show lastVis v (r.out ++ [TermOp.lf, TermOp.showCursor] ++ _) = true
-      rw [lastVis_append, lastVis_append, lastVis_quiet hq]
-      have : lastVis v [TermOp.lf, TermOp.showCursor] = true := rfl
-      rw [this]
-      split
-      · exact lastVis_quiet (quiet_restoreCursor _) _
-      · rfl
+  · simp only [hst, Bool.true_and]
+    have tail := fun r hc hq v alive => stopTail_ctl cfg fails st h hst r hc hq v alive
+    by_cases hf : cfg.flushFix = true
+    · simp only [doStop, hst, hf, Bool.not_true, Bool.false_eq_true, if_false, if_true]
+      have h1 := flushLive_ctl cfg fails { st with started := false } false
+      generalize flushLive cfg fails { st with started := false } false = r1 at h1
+      cases he1 : r1.err with
+      | some e => exact tail r1 h1.1 h1.2 v (some false)
+      | none =>
+        simp only
+        have h2 := flushLive_ctl cfg fails r1.st true
+        generalize flushLive cfg fails r1.st true = r2 at h2
+        cases he2 : r2.err with
+        | some e =>
+          have := tail { r2 with out := r1.out ++ r2.out } (h2.1.trans h1.1) (Quiet.append h1.2 h2.2) v (some true)
+          rw [he2] at this
+          exact this
+        | none =>
+          simp only
+          have h3 := doRefresh_ctl cfg fails (stopSt cfg r2.st)
+          have hs3 : CtlEq (stopSt cfg r2.st) { st with started := false } := by
+            have a := stopSt_ctl cfg r2.st
+            have b := h2.1.trans h1.1
+            obtain ⟨b1, b2, b3, b4, b5, b6⟩ := b
+            exact a.trans ⟨rfl, b2, b3, b4, b5, b6⟩
+          exact tail { doRefresh cfg fails (stopSt cfg r2.st) with out := r1.out ++ r2.out ++ (doRefresh cfg fails (stopSt cfg r2.st)).out }
+            (h3.1.trans hs3) (Quiet.append (Quiet.append h1.2 h2.2) h3.2) v none
+    · have hf' : cfg.flushFix = false := by simpa using hf
+      simp only [doStop, hst, hf', Bool.not_true, Bool.false_eq_true, if_false]
+      have h3 := doRefresh_ctl cfg fails (stopSt cfg st)
+      exact tail _ (h3.1.trans (stopSt_ctl cfg st)) h3.2 v none
   · have hst' : st.started = false := by simpa using hst
     simp [doStop, hst', lastVis]
     exact h
@@ -223,20 +357,21 @@ theorem doStop_ctl (cfg : Cfg) (fails : Nat → Bool) (st : St) (h : Bal cfg st)
 theorem enableRedirect_bal {cfg : Cfg} {st : St} (h : Bal cfg st) (hs : st.started = false) :
     Bal cfg { enableRedirect cfg st with started := true, hooks := st.hooks + 1 } := by
   obtain ⟨h1, h2, h3, h4, h5⟩ := h
-  obtain ⟨started, shape, rend, ov, ov0, hooks, so, se, rso, rse, tasks, ti, calls⟩ := st
+  obtain ⟨started, shape, rend, ov, ov0, hooks, so, se, rso, rse, bo, be, tasks, ti, calls, wd⟩ := st
   simp only at h1 h2 h3 h4 h5 hs
   subst hs
   simp at h1 h2 h3 h4 h5
   subst h1 h2 h3 h4 h5
-  cases hro : cfg.redirectStdout <;> cases hre : cfg.redirectStderr <;>
-    exact ⟨by simp [enableRedirect, hro, hre], by simp [enableRedirect, hro, hre], by simp [enableRedirect, hro, hre],
-      by simp [enableRedirect, hro, hre], by simp [enableRedirect, hro, hre]⟩
+  cases ht : cfg.terminal <;> cases hro : cfg.redirectStdout <;> cases hre : cfg.redirectStderr <;>
+    exact ⟨by simp [enableRedirect, ht, hro, hre], by simp [enableRedirect, Cfg.rOut, ht, hro, hre],
+      by simp [enableRedirect, Cfg.rErr, ht, hro, hre], by simp [enableRedirect, Cfg.rOut, ht, hro, hre],
+      by simp [enableRedirect, Cfg.rErr, ht, hro, hre]⟩
 
 /-- `start`: balanced afterwards; the cursor is hidden exactly when the display ends up started; a failing
 `start` leaves the display started only in the unguarded `Progress.start` of rich 9.10.0 as found (before fix 4e4f7e5). -/
-theorem doStart_ctl (cfg : Cfg) (fails : Nat → Bool) (st : St) (h : Bal cfg st) (v : Bool) (hv : v = !st.started) :
+theorem doStart_ctl (cfg : Cfg) (fails : Nat → Bool) (st : St) (h : Bal cfg st) (v : Bool) (hv : v = vis cfg st.started) :
     Bal cfg (doStart cfg fails st).st ∧
-      lastVis v (doStart cfg fails st).out = !(doStart cfg fails st).st.started ∧
+      lastVis v (doStart cfg fails st).out = vis cfg (doStart cfg fails st).st.started ∧
       ((doStart cfg fails st).err = none → st.started = false → (doStart cfg fails st).st.started = true) ∧
       ((doStart cfg fails st).err ≠ none → (cfg.kind ≠ .progress ∨ cfg.startGuard = true) →
         (doStart cfg fails st).st.started = false) := by
@@ -244,9 +379,11 @@ theorem doStart_ctl (cfg : Cfg) (fails : Nat → Bool) (st : St) (h : Bal cfg st
   · simp [doStart, hst, lastVis, hv]; exact h
   · have hst' : st.started = false := by simpa using hst
     have hb1 := enableRedirect_bal h hst'
+    have hhide : lastVis v (hideOp cfg) = vis cfg true := by
+      rw [lastVis_hideOp, hv, hst']; unfold vis; cases cfg.ansi <;> rfl
     cases hk : cfg.kind
     · simp only [doStart, hst', hk]
-      exact ⟨hb1, rfl, fun _ _ => rfl, fun he => absurd rfl he⟩
+      exact ⟨hb1, hhide, fun _ _ => rfl, fun he => absurd rfl he⟩
     · -- progress
       simp only [doStart, hst', hk, Bool.false_eq_true, if_false]
       have hc := doRefresh_ctl cfg fails { enableRedirect cfg st with started := true, hooks := st.hooks + 1 }
@@ -257,31 +394,32 @@ theorem doStart_ctl (cfg : Cfg) (fails : Nat → Bool) (st : St) (h : Bal cfg st
       | none =>
         simp only
         refine ⟨hbr, ?_, fun _ _ => hsr, fun he => absurd rfl he⟩
-        show lastVis false r.out = !r.st.started
-        rw [lastVis_quiet hc.2, hsr]; rfl
+        show lastVis v (hideOp cfg ++ r.out) = vis cfg r.st.started
+        rw [lastVis_append, hhide, lastVis_quiet hc.2, hsr]
       | some e =>
         simp only
         by_cases hg : cfg.startGuard = true
         · simp only [hg, if_true]
-          have hstop := doStop_ctl cfg fails r.st hbr false
+          have hstop := doStop_ctl cfg fails r.st hbr (vis cfg true)
           refine ⟨hstop.1, ?_, fun he => by simp at he, fun _ _ => hstop.2.1⟩
-          show lastVis false (r.out ++ (doStop cfg fails r.st).out) = !(doStop cfg fails r.st).st.started
-          rw [lastVis_append, lastVis_quiet hc.2, hstop.2.2, hstop.2.1, hsr]; rfl
+          show lastVis v (hideOp cfg ++ r.out ++ (doStop cfg fails r.st).out) = vis cfg (doStop cfg fails r.st).st.started
+          rw [lastVis_append, lastVis_append, hhide, lastVis_quiet hc.2, hstop.2.2, hstop.2.1, hsr]
+          unfold vis; cases cfg.ansi <;> rfl
         · have hg' : cfg.startGuard = false := by simpa using hg
           simp only [hg', Bool.false_eq_true, if_false]
           refine ⟨hbr, ?_, fun he => by simp at he, fun _ hor => ?_⟩
-          · show lastVis false r.out = !r.st.started
-            rw [lastVis_quiet hc.2, hsr]; rfl
+          · show lastVis v (hideOp cfg ++ r.out) = vis cfg r.st.started
+            rw [lastVis_append, hhide, lastVis_quiet hc.2, hsr]
           · rcases hor with h1 | h1
             · exact absurd rfl h1
             · first | (rw [hg'] at h1; cases h1) | exact absurd h1 (by simp [hg']) | cases h1
     · simp only [doStart, hst', hk]
-      exact ⟨hb1, rfl, fun _ _ => rfl, fun he => absurd rfl he⟩
+      exact ⟨hb1, hhide, fun _ _ => rfl, fun he => absurd rfl he⟩
 
 /-- Every operation keeps the control state balanced and the cursor hidden exactly while started. -/
-theorem step_ctl (cfg : Cfg) (fails : Nat → Bool) (st : St) (op : Op) (h : Bal cfg st) (v : Bool) (hv : v = !st.started) :
-    Bal cfg (step cfg fails st op).st ∧ lastVis v (step cfg fails st op).out = !(step cfg fails st op).st.started := by
-  have silent : ∀ r : Res, CtlEq r.st st → Quiet r.out → Bal cfg r.st ∧ lastVis v r.out = !r.st.started := by
+theorem step_ctl (cfg : Cfg) (fails : Nat → Bool) (st : St) (op : Op) (h : Bal cfg st) (v : Bool) (hv : v = vis cfg st.started) :
+    Bal cfg (step cfg fails st op).st ∧ lastVis v (step cfg fails st op).out = vis cfg (step cfg fails st op).st.started := by
+  have silent : ∀ r : Res, CtlEq r.st st → Quiet r.out → Bal cfg r.st ∧ lastVis v r.out = vis cfg r.st.started := by
     intro r he hq
     exact ⟨Bal.of_ctlEq h he, by rw [lastVis_quiet hq, he.1, hv]⟩
   cases op with
@@ -289,9 +427,10 @@ theorem step_ctl (cfg : Cfg) (fails : Nat → Bool) (st : St) (op : Op) (h : Bal
   | stop =>
     have := doStop_ctl cfg fails st h v
     refine ⟨this.1, ?_⟩
-    show lastVis v (doStop cfg fails st).out = !(doStop cfg fails st).st.started
+    show lastVis v (doStop cfg fails st).out = vis cfg (doStop cfg fails st).st.started
     rw [this.2.2, this.2.1, hv]
-    cases st.started <;> rfl
+    unfold vis
+    cases st.started <;> cases cfg.ansi <;> rfl
   | print ls => exact silent _ (doPrint_ctl cfg fails st ls).1 (doPrint_ctl cfg fails st ls).2
   | printBare =>
     simp only [step]
@@ -307,42 +446,47 @@ theorem step_ctl (cfg : Cfg) (fails : Nat → Bool) (st : St) (op : Op) (h : Bal
       · have := doRefresh_ctl cfg fails { st with renderable := f }
         exact silent _ (this.1.trans ⟨rfl, rfl, rfl, rfl, rfl, rfl⟩) this.2
       · exact silent _ ⟨rfl, rfl, rfl, rfl, rfl, rfl⟩ Quiet.nil
-    · have := doRefresh_ctl cfg fails { st with renderable := statusFrame f }
+    · have := doRefresh_ctl cfg fails { st with renderable := statusFrame cfg.cw f }
       exact silent _ (this.1.trans ⟨rfl, rfl, rfl, rfl, rfl, rfl⟩) this.2
     · exact silent _ (CtlEq.rfl' _) Quiet.nil
-  | addTask desc vis =>
+  | addTask desc vs tot =>
     simp only [step]
-    have := doRefresh_ctl cfg fails (addTaskSt st desc vis)
+    have := doRefresh_ctl cfg fails (addTaskSt st desc vs tot)
     split
     · exact silent _ (this.1.trans ⟨rfl, rfl, rfl, rfl, rfl, rfl⟩) this.2
     · refine silent _ ?_ this.2
-      exact CtlEq.trans (b := (doRefresh cfg fails (addTaskSt st desc vis)).st) ⟨rfl, rfl, rfl, rfl, rfl, rfl⟩
+      exact CtlEq.trans (b := (doRefresh cfg fails (addTaskSt st desc vs tot)).st) ⟨rfl, rfl, rfl, rfl, rfl, rfl⟩
         (this.1.trans ⟨rfl, rfl, rfl, rfl, rfl, rfl⟩)
-  | advance id n =>
-    simp only [step]
-    split
-    · exact silent _ (CtlEq.rfl' _) Quiet.nil
-    · exact silent _ ⟨rfl, rfl, rfl, rfl, rfl, rfl⟩ Quiet.nil
-  | setVisible id vis rf =>
+  | updateTask id ed rf =>
     simp only [step]
     split
     · exact silent _ (CtlEq.rfl' _) Quiet.nil
     · split
       · rename_i t _ _
-        have := doRefresh_ctl cfg fails { st with tasks := replaceTask st.tasks { t with visible := vis } }
+        have := doRefresh_ctl cfg fails { st with tasks := replaceTask st.tasks (ed.apply t) }
         exact silent _ (this.1.trans ⟨rfl, rfl, rfl, rfl, rfl, rfl⟩) this.2
       · exact silent _ ⟨rfl, rfl, rfl, rfl, rfl, rfl⟩ Quiet.nil
+  | resize w => exact silent _ ⟨rfl, rfl, rfl, rfl, rfl, rfl⟩ Quiet.nil
   | removeTask id =>
     simp only [step]
     split
     · exact silent _ (CtlEq.rfl' _) Quiet.nil
     · exact silent _ ⟨rfl, rfl, rfl, rfl, rfl, rfl⟩ Quiet.nil
+  | write err lines tail =>
+    simp only [step, doWrite]
+    split
+    · exact silent _ (CtlEq.rfl' _) Quiet.nil
+    · split
+      · exact silent _ (setBuf_ctl _ _ _) Quiet.nil
+      · rename_i l rest
+        have := doPrint_ctl cfg fails (setBuf st err tail) ((getBuf st err ++ l) :: rest)
+        exact silent _ (this.1.trans (setBuf_ctl _ _ _)) this.2
 
 /-- The body of a `with` block. -/
 theorem runBody_ctl (cfg : Cfg) (fails : Nat → Bool) (body : List Op) :
-    ∀ (st : St) (raiseAt : Option Nat) (v : Bool), Bal cfg st → v = !st.started →
+    ∀ (st : St) (raiseAt : Option Nat) (v : Bool), Bal cfg st → v = vis cfg st.started →
       Bal cfg (runBody cfg fails st body raiseAt).1 ∧
-      lastVis v (runBody cfg fails st body raiseAt).2.1 = !(runBody cfg fails st body raiseAt).1.started ∧
+      lastVis v (runBody cfg fails st body raiseAt).2.1 = vis cfg (runBody cfg fails st body raiseAt).1.started ∧
       (∀ j, raiseAt = some j → j ≤ body.length → (runBody cfg fails st body raiseAt).2.2 = true) := by
   induction body with
   | nil =>
@@ -366,13 +510,13 @@ theorem runBody_ctl (cfg : Cfg) (fails : Nat → Bool) (body : List Op) :
         | some e => exact ⟨hs.1, hs.2, fun _ _ _ => rfl⟩
         | none =>
           simp only
-          have := ih (step cfg fails st op).st (some j) (!(step cfg fails st op).st.started) hs.1 rfl
+          have := ih (step cfg fails st op).st (some j) (vis cfg (step cfg fails st op).st.started) hs.1 rfl
           generalize hrb : runBody cfg fails (step cfg fails st op).st rest (Option.map (fun x => x - 1) (some (j + 1))) = rb
           have hrb' : runBody cfg fails (step cfg fails st op).st rest (some j) = rb := by rw [← hrb]; rfl
           rw [hrb'] at this
           obtain ⟨a, b, c⟩ := rb
           refine ⟨this.1, ?_, fun j' hj hle => ?_⟩
-          · show lastVis v ((step cfg fails st op).out ++ b) = !a.started
+          · show lastVis v ((step cfg fails st op).out ++ b) = vis cfg a.started
             rw [lastVis_append, hs.2]; exact this.2.1
           · cases hj
             exact this.2.2 j rfl (by simp at hle; omega)
@@ -383,13 +527,13 @@ theorem runBody_ctl (cfg : Cfg) (fails : Nat → Bool) (body : List Op) :
       | some e => exact ⟨hs.1, hs.2, fun j hj => by cases hj⟩
       | none =>
         simp only
-        have := ih (step cfg fails st op).st none (!(step cfg fails st op).st.started) hs.1 rfl
+        have := ih (step cfg fails st op).st none (vis cfg (step cfg fails st op).st.started) hs.1 rfl
         generalize hrb : runBody cfg fails (step cfg fails st op).st rest (Option.map (fun x => x - 1) none) = rb
         have hrb' : runBody cfg fails (step cfg fails st op).st rest none = rb := by rw [← hrb]; rfl
         rw [hrb'] at this
         obtain ⟨a, b, c⟩ := rb
         refine ⟨this.1, ?_, fun j hj => by cases hj⟩
-        show lastVis v ((step cfg fails st op).out ++ b) = !a.started
+        show lastVis v ((step cfg fails st op).out ++ b) = vis cfg a.started
         rw [lastVis_append, hs.2]; exact this.2.1
 
 end RichModel.Live
